@@ -5,7 +5,7 @@
    was created with.  Finite maps are association lists kept sorted by key, so that equal maps are
    equal terms (column order is not part of the state, as for compare_metadata).
    No proofs here. *)
-From AV Require Export Model.Ops Spec.C09.
+From AV Require Export Model.Ops Spec.C09Dec.
 
 (* ------------------------------------------------------------------ sorted association lists on strings *)
 
